@@ -9,6 +9,7 @@ import (
 	"fmt"
 	"math/rand"
 	"os"
+	"strings"
 	"time"
 
 	"verif/harness/impl"
@@ -31,8 +32,10 @@ func main() {
 	steps := flag.Int("steps", 30, "commands per programme")
 	out := flag.String("out", "trace.ndjson", "output")
 	pbase := flag.Int("pbase", 0, "first programme number")
-	mode := flag.String("mode", "inproc", "inproc (Manager.ExecCommand) | pipe (pipelined through Manager.Handle over net.Pipe) | tcp (pipelined to -addr)")
+	mode := flag.String("mode", "inproc", "inproc (Manager.ExecCommand) | pipe (pipelined through Manager.Handle over net.Pipe) | clusterpipe (through the real cluster handler and apply loop, Raft replaced in process) | tcp (pipelined to -addr)")
 	addr := flag.String("addr", "", "host:port of a running server (mode tcp)")
+	replicas := flag.String("replicas", "", "comma separated host:port of further nodes of the same cluster: after each programme every key is read back through each of them (recorded as commands, so the model checks them too)")
+	noNonce := flag.Bool("nononce", false, "do not interleave PING <nonce> (alignment is C03's business)")
 	flag.Parse()
 
 	f, err := os.Create(*out)
@@ -89,6 +92,8 @@ func main() {
 		var wc *wire.Conn
 		if *mode == "pipe" {
 			wc = wire.NewPipe(1)
+		} else if *mode == "clusterpipe" {
+			wc = wire.NewClusterPipe()
 		} else {
 			var err error
 			wc, err = wire.DialTCP(*addr)
@@ -116,14 +121,24 @@ func main() {
 			for _, c := range cmds[i : i+n] {
 				nonce := fmt.Sprintf("n%d-%d", pn, g.R.Int63())
 				nonces = append(nonces, nonce)
-				batch = append(batch, impl.S(c...), impl.S("PING", nonce))
+				if *noNonce {
+					batch = append(batch, impl.S(c...))
+				} else {
+					batch = append(batch, impl.S(c...), impl.S("PING", nonce))
+				}
 			}
 			now := time.Now().Unix()
 			res := wc.Batch(batch, 5*time.Second)
 			bad := res.Problem
 			detail := res.Detail
 			nOK := 0
-			for j := 0; j+1 < len(res.Replies); j += 2 {
+			if *noNonce {
+				for j := range res.Replies {
+					emit(i+j, cmds[i+j], now, res.Replies[j])
+					nOK++
+				}
+			}
+			for j := 0; !*noNonce && j+1 < len(res.Replies); j += 2 {
 				echo := res.Replies[j+1]
 				if echo.K != "str" || string(impl.I2B(echo.V)) != nonces[j/2] {
 					if bad == "" {
@@ -142,6 +157,36 @@ func main() {
 				break
 			}
 			i += n
+		}
+		// replica agreement: read every key of the family back through the other nodes
+		if *replicas != "" {
+			var rb [][]string
+			full := map[string][]string{"string": {"GET"}, "keys": {"GET"}, "list": {"LRANGE", "0", "-1"}, "hash": {"HGETALL"}, "set": {"SMEMBERS"},
+				"zset": {"ZRANGE", "0", "-1", "WITHSCORES"}, "stream": {"XRANGE", "-", "+"}}[*family]
+			for _, k := range keysets[*family] {
+				rb = append(rb, []string{"TYPE", k}, append([]string{full[0], k}, full[1:]...))
+			}
+			for _, k := range g.Other {
+				rb = append(rb, []string{"TYPE", k})
+			}
+			for _, ra := range strings.Split(*replicas, ",") {
+				rc, err := wire.DialTCP(ra)
+				if err != nil {
+					fmt.Fprintln(os.Stderr, "dial replica:", err)
+					os.Exit(2)
+				}
+				for _, c := range rb {
+					now := time.Now().Unix()
+					res := rc.Batch([][][]byte{impl.S(c...)}, 5*time.Second)
+					if res.Problem != "" || len(res.Replies) != 1 {
+						emit(len(cmds), c, now, impl.Reply{K: "wire-" + res.Problem, V: []int{}, A: []impl.Reply{}, E: res.Detail})
+						wireProblems++
+						break
+					}
+					emit(len(cmds), c, now, res.Replies[0])
+				}
+				rc.Close()
+			}
 		}
 		wc.Close()
 	}
